@@ -1,7 +1,9 @@
 SPECIFICATION Spec
 CONSTANTS
   RepairedSI = TRUE
+  Mutant = "none"
   MaxCtes = 2
   MaxSteps = 3
+  AllowF42 = FALSE
 INVARIANT MachineMeetsMeaning
 CHECK_DEADLOCK FALSE
